@@ -18,6 +18,16 @@
 use crate::values::UnpackValue;
 use crate::values::Value;
 use crate::values::ValueError;
+use crate::values::types::int::int_or_big::StarlarkIntRef;
+
+/// Slice bounds are clamped to the sequence, so an integer which does not fit in `i32`
+/// behaves like the nearest `i32` instead of being rejected.
+fn unpack_slice_bound(v: Value) -> crate::Result<i32> {
+    match StarlarkIntRef::unpack(v) {
+        Some(i) if i.to_i32().is_none() => Ok(if i < 0 { i32::MIN } else { i32::MAX }),
+        _ => i32::unpack_value_err(v),
+    }
+}
 
 // Helper for convert_slice_indices
 fn convert_index_aux(
@@ -31,7 +41,7 @@ fn convert_index_aux(
         if v.is_none() {
             Ok(default)
         } else {
-            let x = i32::unpack_value_err(v)?;
+            let x = unpack_slice_bound(v)?;
             let i = if x < 0 { len + x } else { x };
             if i < min {
                 Ok(min)
@@ -80,7 +90,7 @@ pub(crate) fn convert_slice_indices(
     let stride = match stride {
         None => 1,
         Some(v) if v.is_none() => 1,
-        Some(v) => i32::unpack_value_err(v)?,
+        Some(v) => unpack_slice_bound(v)?,
     };
     match stride {
         0 => Err(ValueError::IndexOutOfBound(0).into()),
